@@ -1,4 +1,5 @@
 import VermouthModel.C03_Text
+import VermouthModel.C03_Sort
 import VermouthProps.C03
 import VermouthProps.C02
 import VermouthProps.C16File
@@ -11,15 +12,6 @@ of a molecule the same way, the keys read back from the three files are those of
 namespace C03
 
 /-! ### one order: `List.mergeSort` (C02, C16) = the insertion sort of `C03.sortedNodes` -/
-
-/-- insert in front of the first element that is not smaller -/
-def insBy {α} (le : α → α → Bool) (x : α) : List α → List α
-  | [] => [x]
-  | y :: ys => if le x y then x :: y :: ys else y :: insBy le x ys
-
-def insSortBy {α} (le : α → α → Bool) : List α → List α
-  | [] => []
-  | x :: xs => insBy le x (insSortBy le xs)
 
 theorem insBy_append {α} (le : α → α → Bool) (x : α) (l₁ l₂ : List α)
     (h₁ : ∀ b ∈ l₁, le x b = false) (h₂ : ∀ b ∈ l₂.head?, le x b = true) :
